@@ -21,11 +21,17 @@ from .c11 import valid
 from pyvc.sym import cmp
 
 ASSUMPTIONS = [
-    'scope: stage 1 only - no Virtualization Extensions (no stage 2), not Hyp mode, TTBCR.EAE == 0 (Short-descriptor format) or MMU off; '
-    'the Long-descriptor walk (translation_table_walk_ld) and stage-2 translation are NOT covered',
+    'functional scope: stage 1 - Short-descriptor format or MMU off, Long-descriptor format outside Hyp mode, both with and without the '
+    'Virtualization Extensions configured (stage 2 inactive: Secure state or HCR.VM == 0; the Long-descriptor unit with the extensions '
+    'present runs in the thorough tier only), and the Hyp-mode Long-descriptor walk with HSCTLR.M == 1',
+    'no functional specification for the second stage of translation and for Hyp mode with HSCTLR.M == 0: safety units only (no host '
+    'error, termination, frame, ownership, 40-bit result); stage 2 with the stage 1 MMU on runs in the thorough tier only',
+    'a configuration with the Virtualization Extensions also has the Security Extensions and LPAE (architectural requirement)',
     'SCTLR.HA == 0 (no hardware management of the access flag); SCTLR.TRE == 1 (with TRE == 0 the implementation calls the mock '
     'remap_regs_have_reset_values() and raises NotImplementedError on every walk)',
-    'physical memory is the abstract hub of C13/C16 (HubRead4 uninterpreted = arbitrary table contents)',
+    'Long-descriptor faults and aborts taken to Hyp mode end in the mock TLBLookupCameFromCacheMaintenance() (NotImplementedError): '
+    '"a fault exactly where specified" is proved there, not the syndrome',
+    'physical memory is the abstract hub of C13/C16 (HubRead4/HubRead8 uninterpreted = arbitrary table contents)',
 ]
 
 
